@@ -1,11 +1,18 @@
 """C11 - player state is isolated per player and restored on their next turn.
 
-Implementation side: real multi-player games (MpfFakeGameTestCase scaffolding, 1-4 players) with a game mode that
-holds a persisting counter, a non-persisting counter, a persisting accrual and a persisting sequence; player variables
-set directly (`player[x] = v`) and through variable_player (add / set, int / string); extra balls; early game end.
+Implementation side: real multi-player games (MpfFakeGameTestCase scaffolding, 1-4 players) with a game mode - started
+with every ball or only by request (configuration choice) - that holds a persisting counter, a non-persisting counter, a
+persisting accrual (list-valued) and sequence with reset / restart events, shots with a profile, a shot group, a
+persisted enable flag, two achievements and a timer (start / stop / timed pause / pause / add / subtract / jump / reset /
+restart, optionally running from the start and with an end value); player variables set through Player.__setitem__ and
+Player.__setattr__ and through variable_player (add / set, int / string, explicit `player:` targets, add_machine /
+set_machine); extra balls; early game end; late joins; virtual time passes after every op and in explicit waits, with
+turn changes placed inside the timer's pause windows.
 Every `player_<var>` event is captured with its arguments; every player's vars dict is read after every op.
-Model side: MpfVerif.Model.Player (per-player dictionaries, device pointer) through the compiled driver drv_c11.
-Oracle (independent of the model): per-player shadow dictionaries kept by the harness, device snapshots per player.
+Model side: MpfVerif.Model.Player (per-player dictionaries, device pointer, device-local timer state, machine
+variables) through the compiled driver drv_c11.
+Oracle (independent of the model): per-player shadow dictionaries kept by the harness, device snapshots per player,
+object identity of every mutable state object (incl. the accrual's list) across players.
 """
 import gc
 
@@ -20,24 +27,36 @@ LEAN_MODULES = ["MpfVerif.Props.C11"]
 PROPS_FILE = "MpfVerif/Props/C11.lean"
 GEN = []
 MANIFEST = {
-    "text": "Proof on a Lean model of the player store (one variable dictionary per player, Player.__setattr__ with its change event) and of an arbitrary list of persisting game-mode devices, each abstractly given by its player-variable key, fresh state, load rule and reaction to control events, which only point into the current player's dictionary between mode start and mode stop: every request (variable set/add, any device control event, shot-group rotation, player add, ball drain with or without extra ball) leaves the whole dictionary of every player who is not up unchanged, single step and over whole histories; when a ball starts every device presents load(state stored under its key by the player now up) or its fresh state - one theorem over the device list, keys pairwise distinct; a new game / an added player starts from the configured initial values and fresh device states regardless of what an earlier game left; a variable assignment emits exactly one event with value, previous value, change and the owner's player number iff it changed or is new. The model is instantiated with the device kinds of the property (logic-block counter, shot and profile state, shot group rotation, persisted enable flag, achievements with and without restart-on-next-ball, timer ticks) and tied to player.py / logic_blocks.py / shot.py / shot_group.py / enable_disable_mixin.py / achievement.py / timer.py / game.py by a correspondence run on real 1-4 player games (events with arguments, every player's dictionary incl. every device key after every op); per-player shadow dictionaries and shadow device states are kept independently by the harness.",
-    "note": "Trusted: Lean kernel + standard axioms; the hand-written Model/Player.lean (validated only by the differential run; nothing is machine-translated); the concrete load/act rules of the device kinds in the driver are validated by correspondence, the theorems hold for any such rules. Values in the model are immutable, so sharing of a mutable state object between players cannot be expressed there: on the implementation it is sampled (object identity of logic-block state objects and achievement entries of different players). Accruals, sequences and the non-persisting counter are checked by the oracle only (their values are lists / not stored). Timer ticks live in a player variable but restart from start_value with every ball (timer.py device_loaded_in_mode): modelled as a constant load rule. Shows of shots/achievements, variable_player's explicit `player:` target and float variables are outside the model.",
-    "technique": "Lean 4 theorems (frame lemmas over list updates, a fold lemma over the device list, induction over the op list) on a hand model + differential correspondence and independent shadow-state oracle on real multi-player games",
+    "text": "Proof on a Lean model of the player store (one variable dictionary per player, Player.__setattr__ with its change event), of machine variables, and of an arbitrary list of persisting game-mode devices, each abstractly given by its player-variable key, fresh state, load rule, reaction to control events, reaction to the passing of one time unit and device-local state (for a timer: running, time to the next tick, time to the end of a timed pause), which only point into the current player's dictionary between mode start and mode stop: every request (variable set/add, any device control event, shot-group rotation, the passing of any amount of time, machine-variable set/add, player add, mode stop/start, ball drain with or without extra ball) leaves the whole dictionary of every player who is not up unchanged, single step and over whole histories - the one request that is meant to write to somebody else, a variable_player entry with an explicit `player:`, changes exactly the named player and its event carries that player's number; while no game mode runs the passing of time changes nothing at all and after a stop request / game end / a drain without automatic restart nothing points into any player (a timer in a timed pause cannot come back bound to the previous player); when a ball starts - or when the mode is started by request at any later time - every device presents load(state stored under its key by the player now up) or its fresh state - one theorem over the device list, keys pairwise distinct; a new game / an added player starts from the configured initial values and fresh device states regardless of what an earlier game left; machine-scope entries touch no player and nothing else touches machine variables; a variable assignment emits exactly one event with value, previous value, change and the owner's player number iff it changed or is new. The model is instantiated with the device kinds of the property (logic-block counter, accrual with its list-valued progress, sequence, each with reset/restart; shot and profile state, shot group rotation, persisted enable flag, achievements with and without restart-on-next-ball, a timer with start/stop/timed pause/pause/add/subtract/jump/reset/restart, start_running and end value) and tied to player.py / logic_blocks.py / shot.py / shot_group.py / enable_disable_mixin.py / achievement.py / timer.py / variable_player.py / game.py by a correspondence run on real 1-4 player games in virtual time on a 1/8 s grid (events with arguments, every player's dictionary incl. every device key, the timer's running flag and the machine variable after every op; turn changes inside pause windows; modes that start with the ball and modes started by request); per-player shadow dictionaries and shadow device states are kept independently by the harness, and object identity of every mutable per-player state object (logic-block states, the accrual's list, achievement entries) is compared across players after every op.",
+    "note": "Trusted: Lean kernel + standard axioms; the hand-written Model/Player.lean (validated only by the differential run; nothing is machine-translated); the concrete load/act/tick rules of the device kinds in the driver are validated by correspondence, the theorems hold for any such rules. Values in the model are immutable copies, so sharing of a mutable state object between players cannot be expressed there: on the implementation it is checked by object identity after every op. The own-turn behaviour of timer, accrual and sequence is judged by the model comparison only (the oracle adopts what the player who is up has stored); isolation, restore, fresh start and event arguments are judged by the oracle. Timer ticks live in a player variable but restart from start_value with every mode start (timer.py device_loaded_in_mode): modelled as a constant load rule. A held queue event during a turn change is modelled as instantaneous (the harness lets the extra time unit pass before it observes). Outside the model: ball holds and multiball locks (per-player locked-ball counts; they need ball devices), achievement groups, score queues (delayed adds block the ball end), shows of shots/achievements, float variables, tick-interval changes and count-down timers, variable_player conditions / blocks / subscriptions, the player monitor (compared with the events, counted only).",
+    "technique": "Lean 4 theorems (frame lemmas over list updates, a fold lemma over the device list, induction over the op list) on a hand model + differential correspondence in virtual time and independent shadow-state / object-identity oracle on real multi-player games",
     "translated": False,
 }
-RULE = ("a case = initial player_vars (int and string), balls per game 1-3, counter goal 2-4 + 10-60 ops (start game, add "
-        "player, control events of a persisting counter, three shots with a 3-state profile (hit / reset), shot group "
-        "rotation, a persisted enable flag (enable / disable), two achievements (enable / start / complete / stop / "
-        "disable / reset), a timer (add / jump), accrual and sequence steps, direct set of int/str/mixed-type variables, "
-        "variable_player add/set, extra ball award, ball drain, early game end, second game). non-trivial = at least two "
-        "players and at least four ball starts; distinct = canonical JSON of (config, ops)")
+RULE = ("a case = initial player_vars (int and string), balls per game 1-3, counter goal 2-4, game mode started with every ball "
+        "or only by request, timer running from the start or not, with or without end value, player monitor on/off + 10-60 ops "
+        "(start game, add player, control events of a persisting counter, an accrual and a sequence (steps, reset, restart), "
+        "three shots with a 3-state profile (hit / reset), shot group rotation, a persisted enable flag, two achievements "
+        "(enable / start / complete / stop / disable / reset), a timer (add / jump / subtract / start / stop / timed pause / "
+        "pause / reset / restart), waits of 1-24 time units, direct set of int/str/mixed-type variables by item and by "
+        "attribute, variable_player add/set, with explicit player 1-4 (existing or not), add_machine/set_machine, extra "
+        "ball award, ball drain (plain, or with a mode start request at one of nine lifecycle events, optionally holding "
+        "the queue event), mode stop/start requests, turn changes inside the timer's pause window followed by waits, early "
+        "game end, second game). non-trivial = at least two players and at least four ball starts; distinct = canonical "
+        "JSON of (config, ops)")
 TRUSTED = ["modelled, not verified: the game mode's ball/turn rotation, mode start/stop at ball start/end, event queue "
-           "ordering (events are compared in the order the implementation posts them), Python object identity, shows",
+           "ordering (events are compared in the order the implementation posts them), Python object identity, shows; "
+           "the asyncio clock (time is an input of the model: one unit = 1/8 s, deadlines are float-exact on that grid)",
            "Model/Player.lean is hand-written; tied to mpf/core/player.py, mpf/devices/{logic_blocks,shot,shot_group,"
-           "achievement,timer}.py, mpf/core/enable_disable_mixin.py and mpf/modes/game/code/game.py by correspondence"]
-ASSUMPTIONS = ["player variables hold ints or strings (no floats, no containers); `add` is only applied to int variables",
-               "no variable_player entry targets another player explicitly (`player:` option)",
-               "device keys are pairwise distinct and differ from `ball` / `extra_balls` (KeysOK)"]
+           "achievement,timer}.py, mpf/core/enable_disable_mixin.py, mpf/config_players/variable_player.py and "
+           "mpf/modes/game/code/game.py by correspondence"]
+ASSUMPTIONS = ["player variables hold ints or strings (no floats, no containers other than the devices' own state objects); "
+               "`add` is only applied to int variables",
+               "a variable_player entry with an explicit `player:` is meant to change that player (frame excludes exactly "
+               "that player for that request); with a player number that does not exist the code writes to the player "
+               "who is up - followed by the model, reported as an observation",
+               "device keys are pairwise distinct and differ from `ball` / `extra_balls` (KeysOK)",
+               "timers count up with a fixed tick interval; no two different timers of the machine are due at the same "
+               "instant (one timer, pause and tick never pending together)"]
 
 INT_VARS = ["pa", "score", "nv"]          # nv is not configured: created on first use
 ADD_VALUES = [1, 10, -3, 0, 100]
@@ -405,6 +424,7 @@ class Run:
                     m.events.post("start_m1")
             m.events.add_handler(ev, lh, priority=2000000)
         self.mode_started_at = None
+        self.in_pause_window = 0
 
         def ms(**kwargs):
             self.mode_started_at = vm_now()
@@ -443,6 +463,9 @@ class Run:
         self.monitor_calls = []
         self.mode_started_at = None
         self.t0 = self.vm.now()
+        if k in ("drain", "drainw", "mstop") and m.game is not None and m.game.player is not None and \
+                m.modes["m1"].active and m.timers["tm"].delay.check("pause"):
+            self.in_pause_window += 1           # the ball / the mode ends while a timed pause of the timer is pending
         try:
             if k in ("start", "addplayer"):
                 if (k == "start" and m.game is not None) or (k == "addplayer" and m.game is None):
@@ -891,6 +914,7 @@ def execute_unguarded(cfg, ops, model):
                 comps.append((line, run.obs(), model.ask(line)))
         stats["turns"] = orc.turns
         stats["counts"] = orc.counts
+        orc.count("mode_end_inside_pause_window", run.in_pause_window)
         return orc.bad, comps, stats
     finally:
         run.stop()
@@ -969,7 +993,8 @@ def run(ctx):
     if total <= 1000:   # quick tier: four worker processes, 200 cases each
         pool_c20c11.run_parallel(ctx, "harness.corr." + ID, total, chunk=200, workers=4)
     else:               # thorough tier / failing-input search: fresh worker processes, 300 cases each
-        pool_c20c11.run_parallel(ctx, "harness.corr." + ID, total)
+        import os
+        pool_c20c11.run_parallel(ctx, "harness.corr." + ID, total, workers=int(os.environ.get("VERIF_WORKERS", "8")))
 
 
 def replay(ctx, rep):
